@@ -98,4 +98,64 @@ theorem C04_zone_from_this_call (r : R) (t : Tag) (r' : R) (secs : Int) (name : 
 theorem C04_hash_buffer_overwritten (s : Nat) (mx my : Int) :
     (Hash.grayPlan s mx my).map (·.1) = List.range (s * s) := Hash.C19_full_overwrite s mx my
 
+/-! ## the pooled scratch buffer of the unbuffered reader
+
+`fastRead` without a bufio.Reader reads into the first n bytes of a pooled 1 KiB scratch buffer and hands out that
+prefix.  The model `Exif.fastRead` (buffered = false) does not mention the scratch buffer at all; the refinement below
+makes it explicit: a reader state with the scratch buffer's content, whatever an earlier decode left there, and a read
+that behaves as io.ReadFull does (it overwrites the prefix with what the stream delivers).  The bytes handed out, the
+error and the new stream state are those of `Exif.fastRead` and so do not depend on the buffer's previous content; the
+buffer's own content afterwards does, but it is never read before it is overwritten.  The tie to the code is the
+`rawops` correspondence of `vh run C04` (hook exif2.VerifRawOps: two different pre-fills, and the model). -/
+
+/-- `fastRead` (no bufio.Reader) with the scratch buffer made explicit: (new state, new scratch, bytes handed out, error) -/
+def rawRead (r : R) (scratch : Bytes) (n : Nat) : R × Bytes × Bytes × Option ErrKind :=
+  if r.exifLength ≠ 0 ∧ r.po + n > r.exifLength then (r, scratch, [], some .dataLength)
+  else if n > scratch.length then (r, scratch, [], some .dataLength)
+  else if r.rest.length < n then
+    -- io.ReadFull copies what there is, then fails; the code hands out nil
+    ({ r with rest := [], po := (r.po + r.rest.length) % 2 ^ 32 }, r.rest ++ scratch.drop r.rest.length, [],
+      some (if r.rest.length = 0 ∧ n > 0 then .eof else .unexpectedEOF))
+  else
+    let sc := r.rest.take n ++ scratch.drop n
+    ({ r with rest := r.rest.drop n, po := (r.po + n) % 2 ^ 32 }, sc, sc.take n, none)
+
+/-- **Nothing an earlier decode left in the scratch buffer is handed out.**  Whatever the 1 KiB scratch buffer holds, a
+read through it returns exactly what the scratch-free model returns — bytes, error, stream and position. -/
+theorem C04_scratch_not_observed (r : R) (scratch : Bytes) (n : Nat) (hb : r.buffered = false) (hs : scratch.length = scratchSize) :
+    (rawRead r scratch n).1 = (fastRead r n).r ∧ (rawRead r scratch n).2.2.1 = (fastRead r n).buf ∧
+    (rawRead r scratch n).2.2.2 = (fastRead r n).err := by
+  unfold rawRead fastRead
+  rw [hs]
+  simp only [hb, Bool.false_eq_true, if_false]
+  split
+  · exact ⟨rfl, rfl, rfl⟩
+  · split
+    · exact ⟨rfl, rfl, rfl⟩
+    · split
+      · exact ⟨rfl, rfl, rfl⟩
+      · rename_i h1 h2 h3
+        refine ⟨rfl, ?_, rfl⟩
+        dsimp only
+        rw [List.take_append_of_le_length (by simp [List.length_take]; omega), List.take_take, Nat.min_self]
+
+/-- two histories, one result: the same read after any two scratch contents -/
+theorem C04_scratch_noninterference (r : R) (s1 s2 : Bytes) (n : Nat) (hb : r.buffered = false)
+    (h1 : s1.length = scratchSize) (h2 : s2.length = scratchSize) :
+    (rawRead r s1 n).1 = (rawRead r s2 n).1 ∧ (rawRead r s1 n).2.2 = (rawRead r s2 n).2.2 := by
+  have a := C04_scratch_not_observed r s1 n hb h1
+  have b := C04_scratch_not_observed r s2 n hb h2
+  refine ⟨a.1.trans b.1.symm, ?_⟩
+  exact Prod.ext (a.2.1.trans b.2.1.symm) (a.2.2.trans b.2.2.symm)
+
+/-- the scratch buffer keeps its size, so the statement applies to every later read as well -/
+theorem C04_scratch_size (r : R) (scratch : Bytes) (n : Nat) : (rawRead r scratch n).2.1.length = scratch.length := by
+  unfold rawRead
+  repeat' split
+  all_goals first
+    | rfl
+    | (simp only [List.length_append, List.length_take, List.length_drop]; omega)
+
+example : (rawRead { rest := [1, 2, 3, 4, 5], po := 0, exifLength := 0, buffered := false } (List.replicate 8 9) 3).2.2.1 = [1, 2, 3] := by decide
+
 end Imeta.Exif
